@@ -15,10 +15,10 @@ KINDS = ['sub', 'sub_cmp', 'div_mod', 'sqrt', 'equal', 'plus_one', 'ite', 'pairw
 
 
 @st.composite
-def cases(draw, tier):
+def cases(draw, tier, force_alias=False):
     big = tier == 'thorough'
-    kind = draw(st.sampled_from(KINDS))
-    form = draw(st.sampled_from(['generate', 'add', 'add']))
+    kind = draw(st.sampled_from(KINDS if not force_alias else [k for k in KINDS if k != 'ite']))
+    form = draw(st.sampled_from(['generate', 'add', 'add'])) if not force_alias else 'add'
     case = {'kind': kind, 'form': form, 'be': draw(st.booleans()), 'uuid_seed': draw(st.integers(0, 2 ** 20)),
             'add_outputs': draw(st.booleans()), 'given_labels': draw(st.booleans())}
     wmax = {'sub': 7, 'sub_cmp': 6, 'div_mod': 6 if not big else 7, 'sqrt': 12, 'equal': 8, 'plus_one': 8,
@@ -41,6 +41,10 @@ def cases(draw, tier):
         case['p1'] = arith.operand_picks(draw, 16, allow_repeat=kind != 'plus_one')
         case['p2'] = arith.operand_picks(draw, 16, allow_repeat=True)
         case['p3'] = arith.operand_picks(draw, 16, allow_repeat=True)
+        # sometimes the first operand list IS the circuit's own live inputs / outputs list (callers write
+        # add_x(c, c.outputs, ...)), which the gadget may be growing or reordering while it reads it
+        case['alias'] = draw(st.sampled_from([None, None, None, 'outputs', 'outputs', 'inputs'] if not force_alias
+                                             else ['outputs', 'outputs', 'inputs']))
     return case
 
 
@@ -137,18 +141,30 @@ def check_arith(case):
             if p1 is None:
                 p1 = [g_[0] for g_ in host['gates']]
             a, b = p1[:n], p2[:m]
+            live = None
+            alias = case.get('alias')
+            if alias and kind != 'ite':
+                cand = c.outputs if alias == 'outputs' else c.inputs
+                if 1 <= len(cand) <= 16 and not (kind == 'plus_one' and len(set(cand)) < len(cand)):
+                    live = cand
+                    a = list(cand)
+                    cls.add('operands_alias_' + alias)
             n = len(a)
+
+            def arg_a():
+                return live if live is not None else list(a)
+
             kw_out = {}
             if kind in ('plus_one', 'ite', 'pairwise_xor', 'pairwise_ite'):
                 kw_out['add_outputs'] = add_outputs
             if kind == 'sub':
-                ret = ar.add_sub_two_numbers(c, list(a), list(b), big_endian=be)
+                ret = ar.add_sub_two_numbers(c, arg_a(), list(b), big_endian=be)
             elif kind == 'sub_cmp':
-                ret = ar.add_subtract_with_compare(c, list(a), list(b), big_endian=be)
+                ret = ar.add_subtract_with_compare(c, arg_a(), list(b), big_endian=be)
             elif kind == 'div_mod':
                 b = p2[:n] if not case.get('mismatch') else p2[:n + 1]
                 try:
-                    ret = ar.add_div_mod(c, list(a), list(b), big_endian=be)
+                    ret = ar.add_div_mod(c, arg_a(), list(b), big_endian=be)
                 except BadShapesError:
                     if len(b) != len(a):
                         return {'nt': False, 'cls': cls | {'shape_mismatch_rejected'}}
@@ -156,14 +172,14 @@ def check_arith(case):
                 if len(b) != len(a):
                     raise Violation('shape_mismatch_accepted', f'add_div_mod with widths {len(a)} and {len(b)} did not raise')
             elif kind == 'sqrt':
-                ret = ar.add_sqrt(c, list(a), big_endian=be)
+                ret = ar.add_sqrt(c, arg_a(), big_endian=be)
             elif kind == 'equal':
-                ret = ar.add_equal(c, list(a), case['num'])
+                ret = ar.add_equal(c, arg_a(), case['num'])
             elif kind == 'plus_one':
                 if case['given_labels']:
                     result_labels = [f'res_{i}' for i in range(m)]
                     kw_out['result_labels'] = list(result_labels)
-                ret = g.add_plus_one(c, list(a), big_endian=be, **kw_out)
+                ret = g.add_plus_one(c, arg_a(), big_endian=be, **kw_out)
                 if not case['given_labels']:
                     m = n + 1
                 expect_outputs = list(ret)
@@ -174,11 +190,11 @@ def check_arith(case):
                 ret = [g.add_if_then_else(c, a[0], a[1], a[2], **kw_out)]
                 expect_outputs = list(ret)
             elif kind == 'pairwise_xor':
-                xs, ys = p1[:n], p2[:n] if not case.get('mismatch') else p2[:n + 1]
+                xs, ys = a, p2[:n] if not case.get('mismatch') else p2[:n + 1]
                 if case['given_labels']:
                     kw_out['result_labels'] = [f'res_{i}' for i in range(len(xs))]
                 try:
-                    ret = g.add_pairwise_xor(c, list(xs), list(ys), **kw_out)
+                    ret = g.add_pairwise_xor(c, arg_a(), list(ys), **kw_out)
                 except BadShapesError:
                     if len(xs) != len(ys):
                         return {'nt': False, 'cls': cls | {'shape_mismatch_rejected'}}
@@ -188,11 +204,11 @@ def check_arith(case):
                 a = xs + ys
                 expect_outputs = list(ret)
             else:
-                i_, t_, e_ = p1[:n], p2[:n], p3[:n] if not case.get('mismatch') else p3[:n + 1]
+                i_, t_, e_ = a, p2[:n], p3[:n] if not case.get('mismatch') else p3[:n + 1]
                 if case['given_labels']:
                     kw_out['result_labels'] = [f'res_{i}' for i in range(len(i_))]
                 try:
-                    ret = g.add_pairwise_if_then_else(c, list(i_), list(t_), list(e_), **kw_out)
+                    ret = g.add_pairwise_if_then_else(c, arg_a(), list(t_), list(e_), **kw_out)
                 except BadShapesError:
                     if not (len(i_) == len(t_) == len(e_)):
                         return {'nt': False, 'cls': cls | {'shape_mismatch_rejected'}}
@@ -318,13 +334,18 @@ SPEC = {
              '(equal and unequal widths), div-mod (n 1-6/7 incl. b=0, mismatched widths must raise), sqrt (n 1-12), equality '
              'gadget (widths 1-8 x constants 0..2^(w+1)), plus-one (1-8 inputs x 1-10 outputs), if-then-else, pairwise xor / '
              'if-then-else; both endiannesses; a third of the add_* cases with long numbers (up to 16 bits, div-mod 10, pairwise 12) '
-             'since host operands do not enlarge the table; add_* forms on arbitrary (internal, repeated) gates of a generated host with '
+             'since host operands do not enlarge the table; the first operand list sometimes IS the live inputs / outputs list of the '
+             'host (add_x(c, c.outputs, ...)); add_* forms on arbitrary (internal, repeated) gates of a generated host with '
              'add_outputs both ways and result_labels given / None. Oracle: Python integers decoded row by row from the '
              'reference tables on all 2^n rows; output-marking predicate (unchanged without add_outputs, exactly the result '
              'labels added with it), host discipline (old gates structurally / functionally unchanged). Non-trivial: '
              'width >= 2 and, for add_* forms, >=1 internal operand gate.'),
     'assumptions': ['reference tables from vlib/refsem.py'],
-    'subs': [Sub('arith', cases, check_arith, {'quick': 1800, 'thorough': 125000})],
+    'subs': [Sub('arith', cases, check_arith, {'quick': 3200, 'thorough': 125000}),
+             # the option product kind x live list x add_outputs x endianness x given labels is small; give it its own budget
+             Sub('alias', lambda tier: cases(tier, force_alias=True), check_arith, {'quick': 1600, 'thorough': 40000})],
     'required_classes': {'arith': KINDS + ['generate', 'add', 'be', 'le', 'internal_operands', 'unequal_widths',
-                                           'const_does_not_fit', 'shape_mismatch_rejected', 'add_outputs', 'no_add_outputs']},
+                                           'const_does_not_fit', 'shape_mismatch_rejected', 'add_outputs', 'no_add_outputs',
+                                           'operands_alias_outputs', 'operands_alias_inputs'],
+                         'alias': ['operands_alias_outputs', 'operands_alias_inputs', 'plus_one', 'add_outputs', 'le']},
 }
